@@ -22,7 +22,7 @@ theorem not_both_empty {α β} {a : List α} {b : List β} (h : ¬(a.isEmpty = t
 theorem parseSchemaExtension_sound (fl : Flags) (fuel : Nat) : DefSound fl (parseSchemaExtension fl fuel) := by
   intro s d s' h
   rw [parseSchemaExtension_eq] at h
-  simp only [bind_ok, peek_ok, expectKeyword_ok, ite_ok, fail_ok, and_false, false_or, mkLoc_ok, pure_ok] at h
+  simp only [bind_ok, peek_ok, expectKeyword_ok, ite_ok, fail_ok, failAt_ok, failTokAt_ok, and_false, false_or, mkLoc_ok, pure_ok] at h
   obtain ⟨st, s1, ⟨ts, h1, hs1⟩, k1, s2, ⟨ts2, h2, hk1, hv1, hs2⟩, k2, s3, ⟨ts3, h3, hk2, hv2, hs3⟩, ds, s4, hd, ops, s5,
     ho, hne, loc, s6, ⟨hloc, hs6⟩, hfin⟩ := h
   subst hs1
@@ -37,7 +37,7 @@ theorem parseSchemaExtension_sound (fl : Flags) (fuel : Nat) : DefSound fl (pars
 
 theorem parseScalarTypeExtension_sound (fl : Flags) (fuel : Nat) : DefSound fl (parseScalarTypeExtension fl fuel) := by
   intro s d s' h
-  simp only [parseScalarTypeExtension, bind_ok, peek_ok, expectKeyword_ok, ite_ok, fail_ok, and_false, false_or,
+  simp only [parseScalarTypeExtension, bind_ok, peek_ok, expectKeyword_ok, ite_ok, fail_ok, failAt_ok, failTokAt_ok, and_false, false_or,
     mkLoc_ok, pure_ok] at h
   obtain ⟨st, s1, ⟨ts, h1, hs1⟩, k1, s2, ⟨ts2, h2, hk1, hv1, hs2⟩, k2, s3, ⟨ts3, h3, hk2, hv2, hs3⟩, nm, s4, hn, ds, s5, hd,
     hne, loc, s6, ⟨hloc, hs6⟩, hfin⟩ := h
@@ -57,7 +57,7 @@ theorem not_three_empty {α β γ} {a : List α} {b : List β} {c : List γ}
 
 theorem parseObjectTypeExtension_sound (fl : Flags) (fuel : Nat) : DefSound fl (parseObjectTypeExtension fl fuel) := by
   intro s d s' h
-  simp only [parseObjectTypeExtension, bind_ok, peek_ok, expectKeyword_ok, ite_ok, fail_ok, and_false, false_or,
+  simp only [parseObjectTypeExtension, bind_ok, peek_ok, expectKeyword_ok, ite_ok, fail_ok, failAt_ok, failTokAt_ok, and_false, false_or,
     mkLoc_ok, pure_ok] at h
   obtain ⟨st, s1, ⟨ts, h1, hs1⟩, k1, s2, ⟨ts2, h2, hk1, hv1, hs2⟩, k2, s3, ⟨ts3, h3, hk2, hv2, hs3⟩, nm, s4, hn, ifs, s5, hi,
     ds, s6, hd, fs, s7, hfs, hne, loc, s8, ⟨hloc, hs8⟩, hfin⟩ := h
@@ -76,7 +76,7 @@ theorem parseObjectTypeExtension_sound (fl : Flags) (fuel : Nat) : DefSound fl (
 theorem parseInterfaceTypeExtension_sound (fl : Flags) (fuel : Nat) :
     DefSound fl (parseInterfaceTypeExtension fl fuel) := by
   intro s d s' h
-  simp only [parseInterfaceTypeExtension, bind_ok, peek_ok, expectKeyword_ok, ite_ok, fail_ok, and_false, false_or,
+  simp only [parseInterfaceTypeExtension, bind_ok, peek_ok, expectKeyword_ok, ite_ok, fail_ok, failAt_ok, failTokAt_ok, and_false, false_or,
     mkLoc_ok, pure_ok] at h
   obtain ⟨st, s1, ⟨ts, h1, hs1⟩, k1, s2, ⟨ts2, h2, hk1, hv1, hs2⟩, k2, s3, ⟨ts3, h3, hk2, hv2, hs3⟩, nm, s4, hn,
     ds, s6, hd, fs, s7, hfs, hne, loc, s8, ⟨hloc, hs8⟩, hfin⟩ := h
@@ -93,7 +93,7 @@ theorem parseInterfaceTypeExtension_sound (fl : Flags) (fuel : Nat) :
 
 theorem parseUnionTypeExtension_sound (fl : Flags) (fuel : Nat) : DefSound fl (parseUnionTypeExtension fl fuel) := by
   intro s d s' h
-  simp only [parseUnionTypeExtension, bind_ok, peek_ok, expectKeyword_ok, ite_ok, fail_ok, and_false, false_or,
+  simp only [parseUnionTypeExtension, bind_ok, peek_ok, expectKeyword_ok, ite_ok, fail_ok, failAt_ok, failTokAt_ok, and_false, false_or,
     mkLoc_ok, pure_ok] at h
   obtain ⟨st, s1, ⟨ts, h1, hs1⟩, k1, s2, ⟨ts2, h2, hk1, hv1, hs2⟩, k2, s3, ⟨ts3, h3, hk2, hv2, hs3⟩, nm, s4, hn,
     ds, s6, hd, us, s7, hu, hne, loc, s8, ⟨hloc, hs8⟩, hfin⟩ := h
@@ -110,7 +110,7 @@ theorem parseUnionTypeExtension_sound (fl : Flags) (fuel : Nat) : DefSound fl (p
 
 theorem parseEnumTypeExtension_sound (fl : Flags) (fuel : Nat) : DefSound fl (parseEnumTypeExtension fl fuel) := by
   intro s d s' h
-  simp only [parseEnumTypeExtension, bind_ok, peek_ok, expectKeyword_ok, ite_ok, fail_ok, and_false, false_or,
+  simp only [parseEnumTypeExtension, bind_ok, peek_ok, expectKeyword_ok, ite_ok, fail_ok, failAt_ok, failTokAt_ok, and_false, false_or,
     mkLoc_ok, pure_ok] at h
   obtain ⟨st, s1, ⟨ts, h1, hs1⟩, k1, s2, ⟨ts2, h2, hk1, hv1, hs2⟩, k2, s3, ⟨ts3, h3, hk2, hv2, hs3⟩, nm, s4, hn,
     ds, s6, hd, vs, s7, hvs, hne, loc, s8, ⟨hloc, hs8⟩, hfin⟩ := h
@@ -128,7 +128,7 @@ theorem parseEnumTypeExtension_sound (fl : Flags) (fuel : Nat) : DefSound fl (pa
 theorem parseInputObjectTypeExtension_sound (fl : Flags) (fuel : Nat) :
     DefSound fl (parseInputObjectTypeExtension fl fuel) := by
   intro s d s' h
-  simp only [parseInputObjectTypeExtension, bind_ok, peek_ok, expectKeyword_ok, ite_ok, fail_ok, and_false, false_or,
+  simp only [parseInputObjectTypeExtension, bind_ok, peek_ok, expectKeyword_ok, ite_ok, fail_ok, failAt_ok, failTokAt_ok, and_false, false_or,
     mkLoc_ok, pure_ok] at h
   obtain ⟨st, s1, ⟨ts, h1, hs1⟩, k1, s2, ⟨ts2, h2, hk1, hv1, hs2⟩, k2, s3, ⟨ts3, h3, hk2, hv2, hs3⟩, nm, s4, hn,
     ds, s6, hd, fs, s7, hfs, hne, loc, s8, ⟨hloc, hs8⟩, hfin⟩ := h
@@ -145,7 +145,7 @@ theorem parseInputObjectTypeExtension_sound (fl : Flags) (fuel : Nat) :
 
 theorem parseTypeSystemExtension_sound (fl : Flags) (fuel : Nat) : DefSound fl (parseTypeSystemExtension fl fuel) := by
   intro s d s' h
-  simp only [parseTypeSystemExtension, bind_ok, peek2_ok, ite_ok, fail_ok, and_false, or_false] at h
+  simp only [parseTypeSystemExtension, bind_ok, peek2_ok, ite_ok, fail_ok, failAt_ok, failTokAt_ok, and_false, or_false] at h
   obtain ⟨kwd, s1, ⟨t0, ts, _, hs1⟩, _, h⟩ := h
   subst hs1
   rcases h with ⟨_, h⟩ | ⟨_, ⟨_, h⟩ | ⟨_, ⟨_, h⟩ | ⟨_, ⟨_, h⟩ | ⟨_, ⟨_, h⟩ | ⟨_, ⟨_, h⟩ | ⟨_, _, h⟩⟩⟩⟩⟩⟩
